@@ -62,8 +62,10 @@ Definition unit_class_stub (a : attrs) : bool :=
   end.
 
 (* SchemaLoaderDF._create_entry without the schema object *)
-Definition tsv_read_row (r : tsv_row) : res (str * attrs * option str) :=
-  let element_name := if endswith s_dash_hash (r_name r) then [ch_hash] else r_name r in
+(* [fixed5] = true: with fix-F5 the name cell loses its outer white space first (_get_tag_name) *)
+Definition tsv_read_row (fixed5 : bool) (r : tsv_row) : res (str * attrs * option str) :=
+  let base_tag_name := if fixed5 then strip (r_name r) else r_name r in
+  let element_name := if endswith s_dash_hash base_tag_name then [ch_hash] else base_tag_name in
   match parse_attribute_string (r_attributes r) with
   | Exn ValueError =>
       (* _get_tag_attributes records the error and returns None *)
